@@ -46,7 +46,7 @@ def _fault_value(rng):
 def _val_sequence(rng, L):
     pool = rng.sample(range(-30, 31), L) if L <= 61 else list(range(L))
     v = [float(x) for x in pool]
-    faults = {"loss_nonfinite": 0, "loss_tie": 0, "plateau": 0}
+    faults = {"loss_nonfinite": 0, "loss_tie": 0, "plateau": 0, "near_tie": 0}
     if L and rng.random() < 0.25:
         for _ in range(rng.choice([1, 1, 2])):
             v[rng.randrange(L)] = _fault_value(rng)
@@ -58,6 +58,17 @@ def _val_sequence(rng, L):
     if L >= 2 and rng.random() < 0.04:
         v = [v[0]] * L
         faults["plateau"] += 1
+    if L >= 2 and rng.random() < 0.2:
+        # near-tie: two DISTINCT losses closer than any sensible tolerance (strict oracle applies)
+        i, j = rng.sample(range(L), 2)
+        if isinstance(v[i], float):
+            kind = rng.choice(["rel", "rel", "abs0"])
+            if kind == "rel" and v[i] != 0.0:
+                v[j] = v[i] * (1.0 + rng.choice([1, -1]) * rng.choice([2e-6, 5e-7]))
+            else:
+                v[i] = 0.0
+                v[j] = rng.choice([1, -1]) * rng.choice([1e-9, 1e-12, 1e-30])
+            faults["near_tie"] = 1
     return v, faults
 
 
